@@ -48,7 +48,7 @@ INITS = [
     {"tx": ["1@a"], "gz": ["9@z"], "gz_newer": False},
     {"tx": [], "gz": None, "gz_newer": False},
 ]
-RECSETS = [[], [[5, "e"]], [[6, "f@g"], [7, None]]]
+RECSETS = [[], [[5, "e"]], [[6, "f@g"], [7, None], [8, "c\rr\r"]]]
 
 
 def _alphabet():
@@ -61,7 +61,7 @@ def _alphabet():
 
 
 def _rand_val(rng):
-    return rng.choice([None, "", "x", "a@b", "back\\slash", "two\nlines", "\\s", "é", "tab\there"])
+    return rng.choice([None, "", "x", "a@b", "back\\slash", "two\nlines", "\\s", "é", "tab\there", "car\rriage", "cr\r"])
 
 
 def _schema_variants(rng):
@@ -99,7 +99,7 @@ def _rand_lines(rng, fields, n):
             if f[1] == ":integer":
                 cols.append(str(rng.randrange(0, 50)) if rng.random() < 0.9 else "")
             else:
-                cols.append(rng.choice(["", "x", "it rains", "a\\sb", "q\\\\", "n\\nl", "é"]))
+                cols.append(rng.choice(["", "x", "it rains", "a\\sb", "q\\\\", "n\\nl", "é", "c\rr", "r\r"]))
         lines.append("@".join(cols))
     return lines
 
